@@ -14,6 +14,7 @@ def clog2(n): return int(math.ceil(math.log2(n))) if n > 1 else 0
 
 def gen(rng):
     nw = rng.randint(2, 12); s = rng.random() < 0.6; nf = rng.randint(0, nw); lo, hi = S.fmt_bounds(s, nw)
+    if rng.random() < 0.15: nf = rng.choice([-2, -1, nw + 1, nw + 2])        # fraction lengths outside 0..n_word are formats too
     shape = rng.choice([(2,), (3,), (5,), (8,), (2, 2), (2, 3), (3, 3), (3, 2), (1, 3)])
     n = int(math.prod(shape)); k = rng.random()
     if k < 0.2: codes = [lo] * n
@@ -33,9 +34,11 @@ def gen(rng):
         c.update({'f2': [s2, nw2, nf2], 'shape2': list(shape2), 'codes2': codes2})
     if op in ('trace', 'diagonal') and len(shape) != 2: c['op'] = 'sum'; c['axis'] = None
     # the property's domain: result word <= 53 bits
-    if op == 'cumprod' and n * nw > 53: return gen(rng)
+    if op == 'cumprod' and n * max(nw, abs(nf) + nw) > 53: return gen(rng)
     if op == 'prod' and (n if axis is None else shape[axis]) * nw > 53: return gen(rng)
     if op == 'clip': c['clip'] = [rng.randint(lo, 0) , rng.randint(0, hi)]
+    if op == 'transpose' and rng.random() < 0.6:
+        perm = list(range(len(shape))); rng.shuffle(perm); c['axes'] = perm
     return c
 
 def run_cases(cases, res):
@@ -60,7 +63,9 @@ def run_cases(cases, res):
                 z = x.cumprod(axis=axis) if meth else np.cumprod(x, axis=axis)
                 cp = np.cumprod(arr, axis=axis); cnt = np.cumsum(np.ones_like(arr, dtype=object), axis=axis)
                 exact = np.array([p * lsb ** int(k) for p, k in zip(np.asarray(cp).reshape(-1), np.asarray(cnt).reshape(-1))], dtype=object).reshape(np.asarray(cp).shape)
-                want_fmt = (s, x.size * nw, x.size * nf)
+                # documented growth (size times the word and the fraction) whenever that format holds every running product;
+                # otherwise (n_frac outside 0..n_word - sign) only exactness and "no overflow" are demanded
+                want_fmt = (s, x.size * nw, x.size * nf) if 0 <= nf <= nw - (1 if s else 0) else None
             elif op in ('dot', 'matmul'):
                 s2, nw2, nf2 = c['f2']; y = A.mk(fx, np, s2, nw2, nf2, c['codes2'], shape=tuple(c['shape2']))
                 arr2 = np.array(c['codes2'], dtype=object).reshape(tuple(c['shape2']))
@@ -81,7 +86,10 @@ def run_cases(cases, res):
                 a, b = c['clip']; z = x.clip(float(a * lsb), float(b * lsb)) if meth else np.clip(x, float(a * lsb), float(b * lsb))
                 exact = np.clip(arr.astype(np.int64), a, b).astype(object) * lsb; want_fmt = (s, nw, nf)
             elif op == 'transpose':
-                z = x.transpose() if meth else np.transpose(x); exact = arr.T * lsb; want_fmt = (s, nw, nf)
+                ax = c.get('axes')      # None, or an explicit permutation of the axes
+                if ax is None: z = x.transpose() if meth else np.transpose(x)
+                else: z = x.transpose(tuple(ax)) if meth else np.transpose(x, tuple(ax))
+                exact = np.transpose(arr, ax if ax is None else tuple(ax)) * lsb; want_fmt = (s, nw, nf)
             elif op == 'diagonal':
                 z = x.diagonal() if meth else np.diagonal(x); exact = np.diagonal(arr) * lsb; want_fmt = (s, nw, nf)
             obs = {'is_fxp': isinstance(z, fx.Fxp)}
